@@ -16,3 +16,146 @@ class get_solver:
                    % ("int(model.get('X_shape_0', 4))", "int(model.get('X_shape_1', 4))"))
     native = {"exact_solver": "result in ('full', 'tsqr')"}
     ensures = {"exact_solver": "result == 'full' or result == 'tsqr'"}
+
+
+# ---------------------------------------------------------------------------
+# masking is applied identically when fitting and when projecting; labels come from the projections of the same data
+from pyvc.contract import TSpec, fresh_array, make_obj
+from pyvc import symex as _X
+from pyvc import values as V
+import z3 as _z3
+
+
+class _KMeansStub:
+    """sklearn.cluster.KMeans: only fit_predict / predict of an (N, k) array -> N integer labels (uninterpreted)"""
+    _pyvc_native = True
+
+    def __init__(self):
+        self.calls = []
+
+    def fit_predict(self, x):
+        from pyvc.arrays import from_nested
+        a = from_nested(x)
+        res = fresh_array("kmeans_labels", 1, "int", shape=(a.shape[0],))
+        self.calls.append(("fit_predict", a, res))
+        return res
+
+    def predict(self, x):
+        from pyvc.arrays import from_nested
+        a = from_nested(x)
+        res = fresh_array("kmeans_pred", 1, "int", shape=(a.shape[0],))
+        self.calls.append(("predict", a, res))
+        return res
+
+
+class TClassifier(TSpec):
+    def __init__(self, with_mask=True):
+        self.with_mask = with_mask
+
+    def fresh(self, name, path):
+        from pyvc.values import Sym
+        interp = path.interp
+        cls = interp.resolve("acryo.classification.pca:PcaClassifier")
+        n = Sym(_z3.Int(f"{name}_n_image"))
+        path.assume(n >= 2)
+        shape = tuple(Sym(_z3.Int(f"{name}_box_{a}")) for a in range(3))
+        for s_ in shape:
+            path.assume(s_ >= 1)
+        img = T.Arr(4, "real", shape=(n,) + shape).fresh(f"{name}_image", path)
+        mask = T.Arr(3, "real", shape=shape).fresh(f"{name}_mask", path) if self.with_mask else 1
+        pca = make_obj(interp, "acryo.classification._dask_pca:DaskPCA", svd_solver="auto", n_components=2)
+        return _X.Obj(cls, {"_image": img, "_mask": mask, "_n_image": n, "_shape": shape, "n_components": 2,
+                            "n_clusters": 2, "_pca": pca, "_kmeans": _KMeansStub(), "_labels": None})
+
+    def src(self, name, model):
+        return "None"
+
+    def cases(self):
+        return [self]
+
+
+for _m in ("fit", "transform"):
+    @contract(f"acryo.classification._dask_pca:DaskPCA.{_m}", props=["C18"])
+    class dask_pca_method:
+        """fit / transform of the out-of-core PCA (numerics trusted; exposes its argument to callers)"""
+        trusted = True
+        params = dict(self=_PCA("auto"))
+        result = (lambda interp, bound: bound["self"]) if _m == "fit" else \
+            (lambda interp, bound: fresh_array("projection", 2, "real", shape=(bound["X"].shape[0], 2)))
+        ensures = {}
+
+
+def masked_flat(self, i, f):
+    """element (i, f) of the masked, flattened stack: image i, voxel with row-major index f, times the mask there"""
+    img, mask = self.attrs["_image"], self.attrs["_mask"]
+    s = self.attrs["_shape"]
+    z = f // (s[1] * s[2])
+    y = (f // s[2]) % s[1]
+    x = f % s[2]
+    v = img.at((i, z, y, x))
+    return v * mask.at((z, y, x)) if not isinstance(mask, int) else v
+
+
+@contract("acryo.classification.pca:PcaClassifier._image_flat", props=["C18"])
+class image_flat:
+    inline = True
+    params = dict(self=TClassifier(), mask=T.OneOf(True, False))
+    ensures = {"shape": "result.shape[0] == self._n_image"}
+
+
+def _replay_classifier(ob_name, meta, model):
+    """replay on a real PcaClassifier with a soft mask: the projections used for clustering must be those of the
+    masked stack the model was fitted on"""
+    return '''
+import numpy as np
+from dask import array as da
+from acryo.classification import PcaClassifier
+rng = np.random.default_rng(5)
+n, shape = 24, (5, 6, 4)
+stack = rng.normal(size=(n,) + shape).astype(np.float32)
+mask = rng.uniform(0.2, 1.0, size=shape).astype(np.float32)          # soft mask
+clf = PcaClassifier(da.from_array(stack, chunks=(6,) + shape), mask_image=mask, n_components=2, n_clusters=2, seed=0).run()
+masked = (stack * mask).reshape(n, -1)
+want = np.asarray(clf.pca.transform(da.from_array(masked)).compute())
+got = np.asarray(clf.get_transform())
+ok = bool(np.allclose(got, want, atol=1e-4))
+fit_ok = bool(np.allclose(np.asarray(clf.pca.mean_), masked.mean(axis=0), atol=1e-4))
+print("projections of the masked stack:", ok, "| fitted on the masked stack:", fit_ok)
+ok = ok and fit_ok
+print("clause holds natively:", ok)
+print("CONFIRMED" if not ok else "NOT-CONFIRMED"); sys.exit(1 if not ok else 0)
+'''
+
+
+@contract("acryo.classification.pca:PcaClassifier.get_transform", props=["C18"])
+class get_transform:
+    replay = staticmethod(_replay_classifier)
+    """projections are computed from the MASKED flattened stack (the same data the model was fitted on)"""
+    params = dict(self=TClassifier(), labels=T.Const(None))
+    helpers = dict(masked_flat=masked_flat)
+    ensures = {
+        "projects_masked_data":
+            "forall(lambda i, z, y, x: flat_src(called_args('DaskPCA.transform')['X'])[i, z, y, x] == "
+            "self._image[i, z, y, x] * self._mask[z, y, x], (0, self._n_image), (0, self._shape[0]), (0, self._shape[1]), (0, self._shape[2]))",
+        "is_the_projection": "result is called('DaskPCA.transform')",
+    }
+
+
+from pyvc import contract as _C
+_C.REGISTRY["acryo.classification.pca:PcaClassifier.get_transform"].result = \
+    lambda interp, bound: fresh_array("transformed", 2, "real", shape=(bound["self"].attrs["_n_image"], 2))
+_C.REGISTRY["acryo.classification.pca:PcaClassifier.get_transform"].call_ensures = []
+
+
+@contract("acryo.classification.pca:PcaClassifier.run", props=["C18"])
+class classifier_run:
+    replay = staticmethod(_replay_classifier)
+    """fit on the masked flattened stack; labels = k-means of the projections of that same masked stack, one per image"""
+    params = dict(self=TClassifier())
+    ensures = {
+        "fits_masked_data":
+            "forall(lambda i, z, y, x: flat_src(called_args('DaskPCA.fit')['X'])[i, z, y, x] == "
+            "self._image[i, z, y, x] * self._mask[z, y, x], (0, self._n_image), (0, self._shape[0]), (0, self._shape[1]), (0, self._shape[2]))",
+        "labels_from_projections": "self._kmeans.calls[0][0] == 'fit_predict' and self._kmeans.calls[0][1] is called('get_transform') "
+                                   "and self._labels is self._kmeans.calls[0][2] and self._labels.shape[0] == self._n_image",
+    }
